@@ -404,6 +404,21 @@ def run(ctx: Any, prog: Program) -> None:
                 tgt = next(iter(passed))
         if tgt in aliases:
             ctx.check('C12.W4', True, core, c, 'only the temp path may be opened', func=f'AtomicWriter.{getattr(fnx, "name", "?")}', text='open target is the temp path')
+            # a local alias stays the recorded name only as long as every assignment to it also assigns self._temp_name (or copies it)
+            if tgt != 'self._temp_name':
+                for n_ in ast.walk(fnx):
+                    if isinstance(n_, ast.Assign) and any(dotted(t) == tgt for t in n_.targets):
+                        together = any(dotted(t) == 'self._temp_name' for t in n_.targets) or dotted(n_.value) == 'self._temp_name'
+                        nxt_ = None
+                        par_ = core.parents.get(n_)
+                        for fld_ in ('body', 'orelse', 'finalbody'):
+                            blk_ = getattr(par_, fld_, None)
+                            if isinstance(blk_, list) and n_ in blk_ and blk_.index(n_) + 1 < len(blk_):
+                                nxt_ = blk_[blk_.index(n_) + 1]
+                        synced = isinstance(nxt_, ast.Assign) and any(dotted(t) == 'self._temp_name' for t in nxt_.targets) and dotted(nxt_.value) == tgt
+                        ctx.check('C12.W4', together or synced, core, n_, f'`{U(n_)[:70]}` moves the local `{tgt}` - the path that is opened - on to another name without recording it in self._temp_name: after a name '
+                                  'collision the writer holds one file open and later renames (or unlinks) a different one, which belongs to another writer or a crashed run',
+                                  func=f'AtomicWriter.{getattr(fnx, "name", "?")}', text='the name opened is the name recorded')
         elif tgt in ('self.filename', 'self._filename'):
             ctx.check('C12.W4', False, core, c, f'`{U(c)[:60]}` opens the destination itself: the old content is destroyed before the new one is complete', func=f'AtomicWriter.{getattr(fnx, "name", "?")}', text='open target is the temp path')
         else:
@@ -487,6 +502,8 @@ def run(ctx: Any, prog: Program) -> None:
 
 
 MUTANTS = [
+    {'id': 'opened_name_not_recorded_after_collision', 'file': '__init__.py', 'find': "        for i in _itertools.count(start=1):\n            self._temp_name = self.filename.with_name(f'tmp_{i}')\n            try:\n                if self.is_bytes:  # type checkers can't narrow self from this!\n                    self.temp = self._temp_name.open('xb')  # type: ignore\n                else:\n                    self.temp = self._temp_name.open('xt', encoding=self.encoding)  # type: ignore\n                break\n            except FileExistsError:\n                pass\n", 'replace': "        self._temp_name = temp_name = self.filename.with_name('tmp_1')\n        for i in _itertools.count(start=2):\n            try:\n                if self.is_bytes:\n                    self.temp = temp_name.open('xb')  # type: ignore\n                else:\n                    self.temp = temp_name.open('xt', encoding=self.encoding)  # type: ignore\n                break\n            except FileExistsError:\n                temp_name = self.filename.with_name(f'tmp_{i}')\n", 'expect': 'C12.W4'},
+    {'id': 'ok_opened_name_recorded_after_collision', 'file': '__init__.py', 'find': "        for i in _itertools.count(start=1):\n            self._temp_name = self.filename.with_name(f'tmp_{i}')\n            try:\n                if self.is_bytes:  # type checkers can't narrow self from this!\n                    self.temp = self._temp_name.open('xb')  # type: ignore\n                else:\n                    self.temp = self._temp_name.open('xt', encoding=self.encoding)  # type: ignore\n                break\n            except FileExistsError:\n                pass\n", 'replace': "        self._temp_name = temp_name = self.filename.with_name('tmp_1')\n        for i in _itertools.count(start=2):\n            try:\n                if self.is_bytes:\n                    self.temp = temp_name.open('xb')  # type: ignore\n                else:\n                    self.temp = temp_name.open('xt', encoding=self.encoding)  # type: ignore\n                break\n            except FileExistsError:\n                self._temp_name = temp_name = self.filename.with_name(f'tmp_{i}')\n", 'expect': None, 'refuse_ok': True},
     {'id': 'enter_unlinks_on_failed_tempfile', 'file': '__init__.py', 'find': "        self.make_tempfile()\n        assert self.temp is not None", 'replace': "        try:\n            self.make_tempfile()\n        except BaseException:\n            if self._temp_name is not None:\n                self._temp_name.unlink()\n            raise\n        assert self.temp is not None", 'expect': 'C12.W4'},
     {'id': 'reentry_truncates_old_handle', 'file': '__init__.py', 'find': "            # Already open - close and delete the current file.\n            self.temp.close()\n", 'replace': "            if not self.temp.closed:\n                self.temp.truncate(0)\n                return\n", 'expect': 'C12.W4'},
     {'id': 'exit_syncs_directory_after_replace', 'file': '__init__.py', 'find': "                self._temp_name.replace(self.filename)\n                committed = True\n", 'replace': "                self._temp_name.replace(self.filename)\n                _os.fsync(_os.open(self.filename.parent, _os.O_RDONLY))\n                committed = True\n", 'expect': 'C12.W7'},
